@@ -57,6 +57,13 @@ const MAX_BACKOFF_S: i64 = 10;
 const SLACK_S: i64 = 1;
 const IFACE_IP: [u8; 4] = [10, 0, 0, 1];
 const OTHER_IP: [u8; 4] = [10, 0, 0, 99];
+const GATEWAY_IP: [u8; 4] = [10, 0, 0, 254];
+const IFACE_MAC: [u8; 6] = [2, 0, 0, 0, 0, 1];
+/// one datagram must be able to carry the > 2 KiB responses of alphabet group g8
+const MTU: usize = 4096;
+fn mac_of(ip: [u8; 4]) -> [u8; 6] {
+    [2, 0, 0, 0, 1, ip[3]]
+}
 const WATCHDOG_MSG: &str = "C19-watchdog: device call budget exceeded in one poll";
 const DEV_BUDGET: u64 = 4000;
 
@@ -96,8 +103,36 @@ impl Device for CountDev {
 // configuration
 // ---------------------------------------------------------------------------------------
 
+/// Network impairment of a configuration.
+#[derive(Clone, Copy, Debug, PartialEq, Eq)]
+pub enum Net {
+    /// Medium::Ip, every frame gets out (timing clauses apply)
+    Ip,
+    /// Medium::Ip, the device refuses `transmit()` from the start (tx_budget = Some(0)); the
+    /// explorer lifts it (`Unblock`) once, at any point
+    IpBackPressure,
+    /// Medium::Ip, the device accepts frames at first; the explorer imposes back-pressure once
+    /// (`Block`) and lifts it once (`Unblock`)
+    IpBackPressureLater,
+    /// Medium::Ethernet, servers on-link. ARP is answered only by the explorer event `ArpReply`,
+    /// never before the given second; None = never answered
+    EthOnLink(Option<u8>),
+    /// Medium::Ethernet, servers off-link behind a default gateway whose ARP behaves as above
+    EthGateway(Option<u8>),
+}
+#[derive(Clone, Copy, Debug, PartialEq, Eq)]
+pub enum Alpha {
+    Full,
+    Reduced,
+    /// a dozen responses (good, wrong txid, CNAME, NXDOMAIN, truncated, large): the impaired
+    /// configurations are about the clock and the link, not about response content
+    Mini,
+}
+
 pub struct CfgInner {
     label: String,
+    net: Net,
+    alpha: Alpha,
     servers: Vec<[u8; 4]>,
     /// (name, qtype)
     queries: Vec<(String, u16)>,
@@ -117,7 +152,14 @@ impl std::fmt::Debug for DnsCfg {
 }
 
 fn make_cfg(label: &str, n_servers: usize, queries: &[(&str, u16)], thorough: bool) -> DnsCfg {
-    let servers: Vec<[u8; 4]> = (0..n_servers).map(|i| [10, 0, 0, 53 + i as u8]).collect();
+    make_cfg_net(label, n_servers, queries, if thorough { Alpha::Full } else { Alpha::Reduced }, Net::Ip)
+}
+
+fn make_cfg_net(label: &str, n_servers: usize, queries: &[(&str, u16)], alpha: Alpha, net: Net) -> DnsCfg {
+    let thorough = alpha == Alpha::Full;
+    let servers: Vec<[u8; 4]> = (0..n_servers)
+        .map(|i| if matches!(net, Net::EthGateway(_)) { [192, 0, 2, 53 + i as u8] } else { [10, 0, 0, 53 + i as u8] })
+        .collect();
     let mdns = queries.iter().any(|(n, _)| n.ends_with(".local"));
     let mut names = vec![];
     for (i, (n, _)) in queries.iter().enumerate() {
@@ -137,6 +179,8 @@ fn make_cfg(label: &str, n_servers: usize, queries: &[(&str, u16)], thorough: bo
     }
     let mut inner = CfgInner {
         label: label.to_string(),
+        net,
+        alpha,
         servers,
         queries: queries.iter().map(|(n, t)| (n.to_string(), *t)).collect(),
         names,
@@ -154,8 +198,9 @@ fn make_cfg(label: &str, n_servers: usize, queries: &[(&str, u16)], thorough: bo
         }
     }
     inner.dbg = Arc::from(format!(
-        "DnsCfg {{ label: {:?}, servers: {}, queries: {:?}, alphabet: {:?}, thorough: {}, limits(srv,res,name): ({},{},{}) }}",
+        "DnsCfg {{ label: {:?}, net: {:?}, servers: {}, queries: {:?}, alphabet: {:?}, thorough: {}, limits(srv,res,name): ({},{},{}) }}",
         inner.label,
+        inner.net,
         inner.servers.len(),
         inner.queries,
         inner.alphabet.iter().map(|a| a.len()).collect::<Vec<_>>(),
@@ -197,6 +242,20 @@ fn alphabet(ci: &CfgInner, qi: usize) -> (Vec<RSpec>, BTreeMap<String, usize>) {
     let qtype = ci.queries[qi].1;
     let len_of = |s: &RSpec| build_payload(&ci.names[qi], qtype, s, 0, DNS_MAX_RESULT_COUNT).len();
 
+    if ci.alpha == Alpha::Mini {
+        add("mini", base, &mut v);
+        add("mini", RSpec { txid: Sel::Other, ..base }, &mut v);
+        add("mini", RSpec { src: Src::Other, ..base }, &mut v);
+        add("mini", RSpec { ans: Ans::Cname1In, ..base }, &mut v);
+        add("mini", RSpec { ans: Ans::AFor(Nm::V), ..base }, &mut v);
+        add("mini", RSpec { hdr: Hdr::NxDomain, ..base }, &mut v);
+        let c1 = RSpec { ans: Ans::Cname1In, ..base };
+        add("mini", RSpec { cut: Some(len_of(&c1) as u16 - 1), ..c1 }, &mut v);
+        add("mini", RSpec { enc: Enc::SelfQ, ..base }, &mut v);
+        add("mini", RSpec { ans: Ans::BigForeign, ..base }, &mut v);
+        add("mini", RSpec { ans: Ans::BigCname, ..base }, &mut v);
+        return (v, groups);
+    }
     // G1: matching dimensions (source address x source port x destination port x txid x question)
     let mut srcs: Vec<Src> = (0..ci.servers.len()).map(|i| Src::Srv(i as u8)).collect();
     srcs.push(Src::Other);
@@ -304,7 +363,28 @@ fn alphabet(ci: &CfgInner, qi: usize) -> (Vec<RSpec>, BTreeMap<String, usize>) {
             }
         }
     }
+    g8_large(&base, &len_of, &mut |s| add("g8_large_responses_pointers_beyond_0x400", s, &mut v));
     (v, groups)
+}
+
+/// G8: responses larger than 1 KiB / 2 KiB (one datagram; the device MTU is 4096) whose names sit
+/// beyond offset 0x400 and are referred to by 14-bit compression pointers: three address records
+/// for foreign names only (nothing may be returned), a GOOD CNAME chain whose target name is
+/// stored beyond 0x400 (must be usable), and the last owner name replaced by pointers around
+/// 0x3ff/0x400/0x7ff/0x800/0x3fff (0x00c = the question name: a good answer).
+fn g8_large(base: &RSpec, len_of: &dyn Fn(&RSpec) -> usize, add: &mut dyn FnMut(RSpec)) {
+    let bf = RSpec { ans: Ans::BigForeign, ..*base };
+    let bc = RSpec { ans: Ans::BigCname, ..*base };
+    add(bf);
+    add(bc);
+    let lf = len_of(&bf) as u16;
+    for off in [0x00c, 0x3ff, 0x400, 0x40c, 0x40d, 0x7ff, 0x800, 0x80c, lf - 1, lf, 0x3fff] {
+        add(RSpec { enc: Enc::PtrAt(Pos::OwnerLast, off), ..bf });
+    }
+    let lc = len_of(&bc) as u16;
+    for off in [0x00c, 0x3ff, 0x400, 0x7ff, lc, 0x3fff] {
+        add(RSpec { enc: Enc::PtrAt(Pos::OwnerLast, off), ..bc });
+    }
 }
 
 /// (configuration, BFS depth). Quick: reduced alphabet, depth 6 (4 for two queries). Thorough: the
@@ -324,7 +404,24 @@ fn configs(tier: Tier) -> Vec<(DnsCfg, usize)> {
             // also the single-server case under the `small` build
             v.push((make_cfg("1q-A-1srv/reduced", 1, &[a], false), 6));
         }
+        v.push((make_cfg_net("bp-ip-1q-A/mini", ns, &[a], Alpha::Mini, Net::IpBackPressure), 14));
+        v.push((make_cfg_net("eth-onlink-arp-never/mini", ns, &[a], Alpha::Mini, Net::EthOnLink(None)), 14));
+        v.push((make_cfg_net("eth-gw-arp-never/mini", ns, &[a], Alpha::Mini, Net::EthGateway(None)), 14));
+        v.push((make_cfg_net("eth-onlink-arp-after-3s/mini", ns, &[a], Alpha::Mini, Net::EthOnLink(Some(3))), 14));
+        v.push((make_cfg_net("bp-later-ip-1q-A/mini", ns, &[a], Alpha::Mini, Net::IpBackPressureLater), 8));
     } else {
+        // impaired links: to the fixpoint (every tick is 1 s while ARP is outstanding / the device
+        // refuses, so the reachable space is as deep as the 11 s / 22 s until failure)
+        v.push((make_cfg_net("bp-ip-1q-A/mini", ns, &[a], Alpha::Mini, Net::IpBackPressure), 48));
+        v.push((make_cfg_net("bp-ip-2q-A+A/mini", ns, &[a, ("de.c", T_A)], Alpha::Mini, Net::IpBackPressure), 48));
+        v.push((make_cfg_net("eth-onlink-arp-never/mini", ns, &[a], Alpha::Mini, Net::EthOnLink(None)), 48));
+        v.push((make_cfg_net("eth-gw-arp-never/mini", ns, &[a], Alpha::Mini, Net::EthGateway(None)), 48));
+        v.push((make_cfg_net("eth-onlink-arp-after-3s/mini", ns, &[a], Alpha::Mini, Net::EthOnLink(Some(3))), 48));
+        v.push((make_cfg_net("eth-gw-arp-after-3s/mini", ns, &[a], Alpha::Mini, Net::EthGateway(Some(3))), 48));
+        v.push((make_cfg_net("eth-onlink-arp-any-time/mini", ns, &[a], Alpha::Mini, Net::EthOnLink(Some(0))), 48));
+        v.push((make_cfg_net("eth-onlink-arp-any-time/reduced", ns, &[a], Alpha::Reduced, Net::EthOnLink(Some(0))), 5));
+        v.push((make_cfg_net("bp-later-ip-1q-A/mini", ns, &[a], Alpha::Mini, Net::IpBackPressureLater), 48));
+        v.push((make_cfg_net("eth-onlink-arp-never-2q/mini", ns, &[a, ("de.c", T_A)], Alpha::Mini, Net::EthOnLink(None)), 48));
         v.push((make_cfg("1q-A/full", ns, &[a], true), 24));
         v.push((make_cfg("1q-AAAA/full", ns, &[("ab.c", T_AAAA)], true), 24));
         v.push((make_cfg("2q-A+A/full", ns, &[a, ("de.c", T_A)], true), 24));
@@ -353,6 +450,11 @@ pub enum Ev {
     RunOut,
     /// deliver a response built from query n's data as seen on the wire
     Resp(u8, RSpec),
+    /// (Ethernet) answer the outstanding ARP request for this address
+    ArpReply([u8; 4]),
+    /// (back-pressure) the device accepts frames again / refuses them again
+    Unblock,
+    Block,
 }
 
 #[derive(Clone, Debug, PartialEq, Eq)]
@@ -407,6 +509,14 @@ pub struct DnsH {
     /// evidence: what the last applied event did
     last_class: u8,
     notes: Vec<String>,
+    /// (Ethernet) addresses smoltcp has sent ARP requests for / that the explorer has answered
+    arp_asked: BTreeSet<[u8; 4]>,
+    arp_answered: BTreeSet<[u8; 4]>,
+    /// (back-pressure) device currently refuses transmit()
+    blocked: bool,
+    was_blocked: bool,
+    /// evidence only
+    n_arp: u64,
 }
 
 // transition classes (evidence)
@@ -417,7 +527,8 @@ const C_RESP_NO_VERDICT: u8 = 3;
 const C_RESP_COMPLETED: u8 = 4;
 const C_RESP_FAILED: u8 = 5;
 const C_DEAD: u8 = 6;
-const CLASS_NAMES: [&str; 7] = [
+const C_LINK: u8 = 7;
+const CLASS_NAMES: [&str; 8] = [
     "tick",
     "run_out",
     "response_refused_by_accepts(icmp_unreachable)",
@@ -425,6 +536,7 @@ const CLASS_NAMES: [&str; 7] = [
     "response_completed_a_query",
     "response_failed_a_query",
     "panic_or_watchdog",
+    "link_event(arp_reply/unblock/block)",
 ];
 
 struct Shards<V> {
@@ -525,7 +637,42 @@ impl DnsH {
     }
 
     fn fail(&mut self, out: &mut Vec<Viol>, sig: &str, detail: String) {
+        // The timing clauses (back-off schedule, 10 s window per server measured from the first
+        // datagram to it) presuppose that every datagram gets out when smoltcp wants to send it.
+        // With unanswered ARP or a refusing device the first datagram to a server leaves late or
+        // never while the server's 10 s window runs from the first ATTEMPT (dns.rs dispatch arms
+        // timeout_at before emit), so only the termination and matching clauses apply there.
+        if sig.starts_with("timing/") && self.ci().net != Net::Ip {
+            return;
+        }
         out.push(Viol::new(format!("C19/{}", sig), detail));
+    }
+
+    /// The link impairment is part of the cause of an unbounded wait.
+    fn bound_sig(&self) -> String {
+        match self.ci().net {
+            Net::Ip => "termination/pending-beyond-bound".into(),
+            Net::IpBackPressure | Net::IpBackPressureLater => "termination/pending-beyond-bound/device-back-pressure".into(),
+            Net::EthOnLink(_) | Net::EthGateway(_) => "termination/pending-beyond-bound/ethernet-arp".into(),
+        }
+    }
+
+    fn eth(&self) -> bool {
+        matches!(self.ci().net, Net::EthOnLink(_) | Net::EthGateway(_))
+    }
+
+    /// Frame a stimulus IPv4 packet for the medium. Off-link sources arrive from the gateway's MAC.
+    fn l2(&self, src_ip: [u8; 4], ip: Vec<u8>) -> Vec<u8> {
+        if !self.eth() {
+            return ip;
+        }
+        let src_mac = if src_ip[..3] == IFACE_IP[..3] { mac_of(src_ip) } else { mac_of(GATEWAY_IP) };
+        let mut f = Vec::with_capacity(14 + ip.len());
+        f.extend_from_slice(&IFACE_MAC);
+        f.extend_from_slice(&src_mac);
+        f.extend_from_slice(&[0x08, 0x00]);
+        f.extend_from_slice(&ip);
+        f
     }
 
     /// One `Interface::poll` under panic capture and device-call budget.
@@ -557,6 +704,7 @@ impl DnsH {
     fn settle(&mut self, out: &mut Vec<Viol>, ctx: &str) -> Option<(usize, usize)> {
         let mut nq = 0;
         let mut nicmp = 0;
+        let mut narp = 0;
         let mut round = 0;
         loop {
             let tx = self.poll_once(out, ctx)?;
@@ -564,6 +712,26 @@ impl DnsH {
                 break;
             }
             for (ts, f) in tx {
+                let f: Vec<u8> = if self.eth() {
+                    if f.len() < 14 {
+                        globals().mach.lock().unwrap().push(format!("runt ethernet frame: {}", hex(&f)));
+                        continue;
+                    }
+                    if f[12..14] == [0x08, 0x06] {
+                        // ARP (RFC 826): oper at 20..22, target protocol address at 38..42
+                        if f.len() >= 42 && f[20..22] == [0, 1] {
+                            let mut t = [0u8; 4];
+                            t.copy_from_slice(&f[38..42]);
+                            self.arp_asked.insert(t);
+                            self.n_arp += 1;
+                            narp += 1;
+                        }
+                        continue;
+                    }
+                    f[14..].to_vec()
+                } else {
+                    f
+                };
                 match parse_tx(&f) {
                     TxFrame::Icmp => nicmp += 1,
                     TxFrame::Other => globals().mach.lock().unwrap().push(format!("unexpected frame on the wire: {}", hex(&f))),
@@ -591,7 +759,7 @@ impl DnsH {
                 return None;
             }
         }
-        Some((nq, nicmp))
+        Some((nq + narp, nicmp))
     }
 
     fn on_query(&mut self, ts: i64, q: TxFrame, out: &mut Vec<Viol>) {
@@ -844,7 +1012,7 @@ impl DnsH {
                             m.sport,
                             m.dport,
                             describe_response(&m.payload),
-                            hex(&m.payload)
+                            if m.payload.len() > 256 { format!("{}...({} octets, complete in replay.steps)", hex(&m.payload[..256]), m.payload.len()) } else { hex(&m.payload) }
                         )
                     };
                     match (msg, matched) {
@@ -920,7 +1088,8 @@ impl DnsH {
                     "query {} still pending at t={} us, bound {} us (started {} us; polled exactly at poll_at); transmissions {:?}",
                     k, self.now, self.qs[k].deadline, self.qs[k].started, self.qs[k].txlog
                 );
-                self.fail(out, "termination/pending-beyond-bound", d);
+                let sg = self.bound_sig();
+                self.fail(out, &sg, d);
                 self.dead = true;
             }
         }
@@ -931,6 +1100,11 @@ impl DnsH {
         let before = (self.now, self.statuses());
         if p > self.now {
             self.now = p;
+        } else if self.blocked {
+            // The device refuses frames and smoltcp asks to be polled "now": a real caller polls
+            // again and again while time passes. Modelled as one poll per second of simulated time
+            // (time has to pass for the per-server time-out to run).
+            self.now += SEC;
         }
         let Some((nq, _)) = self.settle(out, "tick") else { return false };
         self.check_results(None, out);
@@ -997,14 +1171,35 @@ impl Harness for DnsH {
 
     fn new(cfg: &DnsCfg) -> DnsH {
         let ci = &cfg.0;
-        let mut dev = CountDev { inner: SimDevice::new(Medium::Ip, 1500), calls: 0 };
-        let mut c = Config::new(HardwareAddress::Ip);
+        let eth = matches!(ci.net, Net::EthOnLink(_) | Net::EthGateway(_));
+        let mut dev = if eth {
+            CountDev { inner: SimDevice::new(Medium::Ethernet, MTU + 14), calls: 0 }
+        } else {
+            CountDev { inner: SimDevice::new(Medium::Ip, MTU), calls: 0 }
+        };
+        if ci.net == Net::IpBackPressure {
+            dev.inner.tx_budget = Some(0);
+        }
+        let mut c = Config::new(if eth {
+            HardwareAddress::Ethernet(smoltcp::wire::EthernetAddress(IFACE_MAC))
+        } else {
+            HardwareAddress::Ip
+        });
         c.random_seed = 0x19c19 + ci.queries.len() as u64;
         let mut iface = Interface::new(c, &mut dev, Instant::from_micros(0));
         iface.update_ip_addrs(|a| {
             a.push(IpCidr::new(IpAddress::v4(IFACE_IP[0], IFACE_IP[1], IFACE_IP[2], IFACE_IP[3]), 24)).unwrap();
-            a.push(IpCidr::new(IpAddress::v6(0xfd00, 0, 0, 0, 0, 0, 0, 1), 64)).unwrap();
+            if !eth {
+                // (no IPv6 address on Ethernet: keeps NDISC/MLD traffic out of these configurations)
+                a.push(IpCidr::new(IpAddress::v6(0xfd00, 0, 0, 0, 0, 0, 0, 1), 64)).unwrap();
+            }
         });
+        if matches!(ci.net, Net::EthGateway(_)) {
+            iface
+                .routes_mut()
+                .add_default_ipv4_route(smoltcp::wire::Ipv4Address::new(GATEWAY_IP[0], GATEWAY_IP[1], GATEWAY_IP[2], GATEWAY_IP[3]))
+                .unwrap();
+        }
         let servers: Vec<IpAddress> = ci.servers.iter().map(|s| IpAddress::v4(s[0], s[1], s[2], s[3])).collect();
         let slots: Vec<Option<dns::DnsQuery>> = (0..ci.queries.len()).map(|_| None).collect();
         let sock = dns::Socket::new(&servers, slots);
@@ -1024,7 +1219,12 @@ impl Harness for DnsH {
                 handle,
                 status: Status::Pending,
                 started: 0,
-                deadline: n_srv * (PER_SERVER_S + MAX_BACKOFF_S) * SEC + SLACK_S * SEC,
+                // Impaired links (unchanged-tree behaviour): `dispatch` returns at the first query whose
+                // emit fails, so while nothing gets out a later query's per-server window is only
+                // armed once the queries before it have failed (1 server, 2 queries, ARP never
+                // answered: Failed at 11 s and 22 s). The bound therefore scales with the number of
+                // concurrent queries there.
+                deadline: (if ci.net == Net::Ip { 1 } else { ci.queries.len() as i64 }) * n_srv * (PER_SERVER_S + MAX_BACKOFF_S) * SEC + SLACK_S * SEC,
                 port: 0,
                 wire: vec![],
                 edges: BTreeSet::new(),
@@ -1050,6 +1250,11 @@ impl Harness for DnsH {
             dead: false,
             last_class: C_TICK,
             notes: vec![],
+            arp_asked: BTreeSet::new(),
+            arp_answered: BTreeSet::new(),
+            blocked: ci.net == Net::IpBackPressure,
+            was_blocked: ci.net == Net::IpBackPressure,
+            n_arp: 0,
         };
         let mut out = vec![];
         me.settle(&mut out, "initial poll");
@@ -1060,11 +1265,11 @@ impl Harness for DnsH {
             me.notes.push(format!("{} :: {}", v.sig, v.detail));
         }
         for (k, q) in me.qs.iter().enumerate() {
-            if q.wire.is_empty() && q.status == Status::Pending {
+            if q.wire.is_empty() && q.status == Status::Pending && ci.net == Net::Ip {
                 globals().mach.lock().unwrap().push(format!("[{}] query {} was not transmitted by the initial poll", ci.label, k));
             }
         }
-        if me.qs.len() == 2 && me.qs[0].port == me.qs[1].port {
+        if me.qs.len() == 2 && me.qs[0].port == me.qs[1].port && me.qs[0].port != 0 {
             globals().mach.lock().unwrap().push(format!("[{}] both queries drew the same source port; change the seed", ci.label));
         }
         me
@@ -1079,6 +1284,21 @@ impl Harness for DnsH {
             v.push((Ev::Tick, 0));
         }
         v.push((Ev::RunOut, 1));
+        match self.ci().net {
+            Net::IpBackPressure | Net::IpBackPressureLater => {
+                if self.blocked {
+                    v.push((Ev::Unblock, 1));
+                } else if self.ci().net == Net::IpBackPressureLater && !self.was_blocked {
+                    v.push((Ev::Block, 1));
+                }
+            }
+            Net::EthOnLink(Some(after)) | Net::EthGateway(Some(after)) if self.now >= after as i64 * SEC => {
+                for ip in self.arp_asked.difference(&self.arp_answered) {
+                    v.push((Ev::ArpReply(*ip), 1));
+                }
+            }
+            _ => {}
+        }
         for (k, q) in self.qs.iter().enumerate() {
             if q.status == Status::Pending && !q.wire.is_empty() {
                 for s in &self.ci().alphabet[k] {
@@ -1119,15 +1339,43 @@ impl Harness for DnsH {
                     n += 1;
                     if n > 200 {
                         let d = format!("200 polls at poll_at did not finish the queries (t={} us)", self.now);
-                        self.fail(out, "termination/pending-beyond-bound", d);
+                        let sg = self.bound_sig();
+                self.fail(out, &sg, d);
                         self.dead = true;
                     }
                 }
                 C_RUNOUT
             }
+            Ev::ArpReply(ip) => {
+                // RFC 826 reply: Ethernet II header + htype 1, ptype 0x0800, hlen 6, plen 4, oper 2
+                let mac = mac_of(*ip);
+                let mut f = vec![];
+                f.extend_from_slice(&IFACE_MAC);
+                f.extend_from_slice(&mac);
+                f.extend_from_slice(&[0x08, 0x06, 0, 1, 0x08, 0x00, 6, 4, 0, 2]);
+                f.extend_from_slice(&mac);
+                f.extend_from_slice(ip);
+                f.extend_from_slice(&IFACE_MAC);
+                f.extend_from_slice(&IFACE_IP);
+                self.dev.inner.rx.push_back(f);
+                self.arp_answered.insert(*ip);
+                if self.settle(out, "arp reply").is_some() {
+                    self.check_results(None, out);
+                }
+                C_LINK
+            }
+            Ev::Unblock | Ev::Block => {
+                self.blocked = *ev == Ev::Block;
+                self.was_blocked |= self.blocked;
+                self.dev.inner.tx_budget = if self.blocked { Some(0) } else { None };
+                if self.settle(out, "device back-pressure change").is_some() {
+                    self.check_results(None, out);
+                }
+                C_LINK
+            }
             Ev::Resp(k, spec) => {
                 let m = self.build(*k as usize, spec);
-                let frame = udp4_frame(m.src, IFACE_IP, m.sport, m.dport, &m.payload);
+                let frame = self.l2(m.src, udp4_frame(m.src, IFACE_IP, m.sport, m.dport, &m.payload));
                 self.dev.inner.rx.push_back(frame);
                 let ctx = format!("delivering {:?}: {}", spec, hex(&m.payload));
                 match self.settle(out, &ctx) {
@@ -1168,6 +1416,10 @@ impl Harness for DnsH {
                 q.status, q.port, q.wire, q.edges, q.cur_dst, q.cur_dst_first, q.last_tx, q.last_gap, q.sched
             );
         }
+        {
+            use std::fmt::Write;
+            let _ = write!(model, "arp={:?}/{:?} blocked={}/{}", self.arp_asked, self.arp_answered, self.blocked, self.was_blocked);
+        }
         let fp = fp128(&(socks.as_str(), dig.as_str(), self.now, self.next_poll, model.as_str(), self.dead));
         globals().outcomes.put(fp, self.outcome_label(&socks));
         fp
@@ -1186,6 +1438,9 @@ fn describe_event(h: &DnsH, ev: &Ev) -> String {
     match ev {
         Ev::Tick => format!("Tick -> poll at {:?} us", h.next_poll),
         Ev::RunOut => "RunOut (tick until all queries are done)".into(),
+        Ev::ArpReply(ip) => format!("ArpReply {} is-at {}", ipstr(ip), hex(&mac_of(*ip))),
+        Ev::Unblock => "Unblock (device accepts frames again)".into(),
+        Ev::Block => "Block (device refuses transmit)".into(),
         Ev::Resp(k, s) => {
             let m = h.build(*k as usize, s);
             format!(
@@ -1221,7 +1476,8 @@ fn state_line(h: &DnsH) -> String {
             )
         })
         .collect();
-    format!("t={} us poll_at={:?} {}", h.now, h.next_poll, qs.join(" | "))
+    let link = if h.ci().net == Net::Ip { String::new() } else { format!(" [arp requests {} for {:?}, answered {:?}, device blocked {}]", h.n_arp, h.arp_asked.iter().map(ipstr).collect::<Vec<_>>(), h.arp_answered.iter().map(ipstr).collect::<Vec<_>>(), h.blocked) };
+    format!("t={} us poll_at={:?}{} {}", h.now, h.next_poll, link, qs.join(" | "))
 }
 
 /// Run a list of events given as closures choosing from enabled(); used for evidence samples.
@@ -1245,7 +1501,7 @@ fn scripted(cfg: &DnsCfg, pick: &[&dyn Fn(&Ev) -> bool]) -> Value {
 pub fn run(tier: Tier) -> i32 {
     watch::start_monitor(tier.name());
     let mut rep = Report::new("C19", tier);
-    rep.assumptions.push("Medium::Ip, IPv4 transport for responses (mDNS queries also leave over IPv6 and are observed); one dns::Socket; queries started at t=0; the device never refuses a frame".into());
+    rep.assumptions.push("IPv4 transport for responses (mDNS queries also leave over IPv6 and are observed); one dns::Socket; queries started at t=0. Links: Medium::Ip where every frame gets out; Medium::Ip with device back-pressure (tx_budget 0, lifted/re-imposed by the explorer; while smoltcp asks to be polled 'now' one poll per simulated second); Medium::Ethernet with servers on-link or behind a gateway whose ARP is never answered / answered by the explorer not before 3 s / at any time. Timing clauses only on the unimpaired link; matching and termination clauses everywhere".into());
     rep.assumptions.push("time advances only to Interface::poll_at (statement: 'polled according to poll_at'); bound = servers x (10 s + 10 s max back-off) + 1 s from dns.rs constants".into());
     rep.assumptions.push("matching oracle uses its own tolerant DNS parser (dns/msg.rs); lenient readings are listed in coverage.lenient_readings and counted in coverage.observations".into());
     rep.assumptions.push(format!(
@@ -1267,7 +1523,7 @@ pub fn run(tier: Tier) -> i32 {
         // stops after the first level that brings the state count above 8000 (reported as a cap,
         // exhaustive=false) - on a tree where responses can rewrite the stored query name every
         // distinct name multiplies the states and a further level would not fit in memory.
-        let lim = Limits { max_states: if tier == Tier::Quick { 3_000_000 } else { 8_000 }, max_wall_s: if tier == Tier::Quick { 12.0 } else { 200.0 } };
+        let lim = Limits { max_states: if tier == Tier::Quick { 3_000_000 } else if cfg.0.alpha == Alpha::Mini { 400_000 } else { 8_000 }, max_wall_s: if tier == Tier::Quick { 12.0 } else { 200.0 } };
         let mut samples = vec![];
         let t_cfg = std::time::Instant::now();
         let r = bfs::<DnsH>("dns", cfg, d, &lim, &mut rep.found, &mut samples);
@@ -1336,9 +1592,25 @@ pub fn run(tier: Tier) -> i32 {
         "BFS over event histories (depth <= {}, per configuration see per_config), state merged on fingerprint = SocketSet Debug + Interface::verif_digest (minus ipv4_id) + time + poll_at + oracle model; from every state: Tick, RunOut, and for every pending query every response of its alphabet built from the query seen on the wire; RunOut decides bounded termination from EVERY reached state; distinct = distinct fingerprints; transition classes say how many deliveries were refused / processed / completed / failed",
         depth
     )));
+    // positive controls (non-vacuity of the 'only if' oracle): good responses, small and larger than
+    // 1 KiB / 2 KiB, and good responses after the link impairment is lifted, DO complete the query
+    let controls = positive_controls(&cfgs);
+    let failed: Vec<String> = controls.iter().filter(|c| c["completed"] != json!(true)).map(|c| c["control"].as_str().unwrap_or("").to_string()).collect();
+    rep.cov("positive_controls", json!(controls));
+    if !failed.is_empty() {
+        eprintln!("[C19] WARNING: positive controls not completed: {:?}", failed);
+        if rep.found.is_empty() {
+            // not a violation of the statement (which only restricts what MAY complete a query), but a
+            // run in which good answers are not accepted proves nothing
+            rep.machinery_errors.push(format!("positive controls failed (good responses not accepted): {:?}", failed));
+        }
+    }
     // evidence samples: timeline without answers, the CNAME-rewrite scenario, a good answer
     if let Some((c, _)) = cfgs.first() {
         rep.samples.push(json!({"what": "no answers: retransmission/fail-over timeline", "run": scripted(c, &[&|e| *e == Ev::RunOut])}));
+        for (ci, _) in cfgs.iter().filter(|c| c.0 .0.label.starts_with("eth-onlink-arp-never/") || c.0 .0.label.starts_with("bp-ip-1q")) {
+            rep.samples.insert(0, json!({"what": "impaired link, nothing ever gets out: time to failure", "run": scripted(ci, &[&|e| *e == Ev::RunOut])}));
+        }
         let base = base_spec(&c.0);
         let cut_after_cname = {
             // cut inside the second record of [Q->T, T A]: the CNAME has been processed, then parsing fails
@@ -1353,6 +1625,60 @@ pub fn run(tier: Tier) -> i32 {
             "run": scripted(c, &[&move |e| *e == Ev::Resp(0, r1), &move |e| *e == Ev::Resp(0, r2)])}));
     }
     rep.finish()
+}
+
+/// Drive a fresh harness with the first enabled event satisfying each predicate; Some(status of
+/// query 0) at the end.
+fn drive(cfg: &DnsCfg, pick: &[&dyn Fn(&DnsH, &Ev) -> bool]) -> Option<Status> {
+    let mut h = DnsH::new(cfg);
+    let mut viols = vec![];
+    for p in pick {
+        let en = h.enabled();
+        let (ev, _) = en.into_iter().find(|(e, _)| p(&h, e))?;
+        h.apply(&ev, &mut viols);
+    }
+    Some(h.qs[0].status.clone())
+}
+
+fn positive_controls(cfgs: &[(DnsCfg, usize)]) -> Vec<Value> {
+    let mut out = vec![];
+    let mut rec = |name: String, st: Option<Status>| {
+        out.push(json!({"control": name, "completed": matches!(st, Some(Status::Ok(_))), "result": format!("{:?}", st)}));
+    };
+    for (c, _) in cfgs {
+        let base = base_spec(&c.0);
+        let good = Ev::Resp(0, base);
+        match c.0.net {
+            Net::Ip => {
+                if c.0.alpha == Alpha::Mini {
+                    continue;
+                }
+                rec(format!("{}: good small answer", c.0.label), drive(c, &[&move |_, e| *e == good]));
+                let big = Ev::Resp(0, RSpec { ans: Ans::BigCname, ..base });
+                rec(format!("{}: good >1KiB answer, CNAME target and owner pointer beyond 0x400", c.0.label), drive(c, &[&move |_, e| *e == big]));
+                let big2 = Ev::Resp(0, RSpec { ans: Ans::BigForeign, enc: Enc::PtrAt(Pos::OwnerLast, 0x00c), ..base });
+                rec(format!("{}: >2KiB answer whose last record is owned by the queried name", c.0.label), drive(c, &[&move |_, e| *e == big2]));
+            }
+            Net::IpBackPressureLater => {}
+            Net::IpBackPressure => {
+                rec(
+                    format!("{}: tick, tick, unblock, good answer", c.0.label),
+                    drive(c, &[&|_, e| *e == Ev::Tick, &|_, e| *e == Ev::Tick, &|_, e| *e == Ev::Unblock, &move |_, e| *e == good]),
+                );
+            }
+            Net::EthOnLink(Some(_)) | Net::EthGateway(Some(_)) => {
+                rec(
+                    format!("{}: 3 ticks, ARP reply, good answer", c.0.label),
+                    drive(
+                        c,
+                        &[&|_, e| *e == Ev::Tick, &|_, e| *e == Ev::Tick, &|_, e| *e == Ev::Tick, &|_, e| matches!(e, Ev::ArpReply(_)), &move |_, e| *e == good],
+                    ),
+                );
+            }
+            _ => {}
+        }
+    }
+    out
 }
 
 /// Replay choices with a full narrative; returns (lines, violations).
